@@ -5,7 +5,33 @@ DP = "src/evaluator/dp_table.rs"
 def M(name, props, *edits, benign=False):
     return dict(name=name, props=props, edits=list(edits), benign=benign)
 
+FE = "src/evaluator/flop_exhaustive.rs"
+SD = "src/evaluator/showdown.rs"
+
 MUTANTS = [
+    M("c08-recursion", ["C08"], (FE, """        loop {
+            if let Some(showdown) = self.next_deal()? {
+                return Some(showdown);
+            }
+        }""", """        match self.next_deal()? {
+            Some(showdown) => Some(showdown),
+            None => self.next(),
+        }""")),
+    M("c08-empty-guard-removed", ["C08"], (FE, "if self.player_entries.iter().any(|entry| entry.is_empty()) {", "if false && self.player_entries.iter().any(|entry| entry.is_empty()) {")),
+    M("c08-empty-guard-wrong-polarity", ["C08"], (FE, "if self.player_entries.iter().any(|entry| entry.is_empty()) {", "if self.player_entries.iter().all(|entry| entry.is_empty()) {")),
+    M("c02-u8-counter", ["C02", "C08"], (FE, "if self.current_player_indexes[ri] + 1 < self.player_entries[ri].len() {", "if self.current_player_indexes[ri] + 1 < (self.player_entries[ri].len() as u8) as usize {")),
+    M("c02-insert-removed", ["C02"], (FE, "            self.current_used_cards.insert(entry.0[1]);\n", "")),
+    M("c02-insert-conditional", ["C02"], (FE, "            self.current_used_cards.insert(entry.0[1]);\n", "            if player_index > 0 { self.current_used_cards.insert(entry.0[1]); }\n")),
+    M("c02-odometer-plus2", ["C02"], (FE, "if self.current_player_indexes[ri] + 1 < self.player_entries[ri].len() {", "if self.current_player_indexes[ri] + 2 < self.player_entries[ri].len() {")),
+    M("c02-prob-sum", ["C02"], (FE, "probability *= entry.1;", "probability += entry.1;")),
+    M("c02-prob-first-only", ["C02"], (FE, "probability *= entry.1;", "if player_index == 0 { probability *= entry.1; }")),
+    M("c02-board-swap", ["C02"], (FE, "self.current_board[3] = Some(turn);\n        self.current_board[4] = Some(river);", "self.current_board[3] = Some(river);\n        self.current_board[4] = Some(turn);")),
+    M("c02-board-arg-order", ["C02"], (FE, "                    self.current_board[0].unwrap(),\n                    self.current_board[1].unwrap(),", "                    self.current_board[1].unwrap(),\n                    self.current_board[0].unwrap(),")),
+    M("c08-new-unwrap", ["C08"], (FE, "        let mut player_card_pairs = vec![];", "        let _first = self.player_entries.first().unwrap();\n        let mut player_card_pairs = vec![];")),
+    M("c08-inclusive-range", ["C08"], (FE, "for rank in RankRange::all() {", "for rank in RankRange::inclusive(crate::card::Rank::Ace, crate::card::Rank::Deuce) {")),
+    M("benign-c02-u16-cast", ["C02", "C08"], (FE, "if self.current_player_indexes[ri] + 1 < self.player_entries[ri].len() {", "if self.current_player_indexes[ri] + 1 < (self.player_entries[ri].len() as u16) as usize {"), benign=True),
+    M("benign-c02-bound-rewrite", ["C02"], (FE, "if self.current_player_indexes[ri] + 1 < self.player_entries[ri].len() {", "if self.player_entries[ri].len() > self.current_player_indexes[ri] + 1 {"), benign=True),
+
     M("c01-rainbow-slot", ["C01"], (DP, "pub const AS_RAINBOW: [u16; 49205] = [\n    11, 23, 11, 167,", "pub const AS_RAINBOW: [u16; 49205] = [\n    11, 23, 11, 168,")),
     M("c01-ref-entry", ["C01"], (DP, "const REF_THREE_7: [u16; 8] = [1, 8, 36, 119, 322, 749, 1540, 2850];", "const REF_THREE_7: [u16; 8] = [1, 8, 36, 119, 322, 749, 1541, 2850];")),
     M("c01-flush-weight-dup", ["C01"], (MH, "Rank::Trey => 0b10,", "Rank::Trey => 0b1,")),
